@@ -14,6 +14,7 @@ CONSTANTS
   RegKeys = {}
   RegWindows = {}
   RegUsages = {}
+  RegUsagesOk = {}
   RegOthers = {}
   TwoCNs = {}
   Routes = {}
